@@ -1,0 +1,136 @@
+//go:build verif
+
+// Contracts for package vaa, checked by /verif (govc). Comment-only file: with the
+// verif tag off it is not part of the build, with it on it adds only this package clause.
+package vaa
+
+// ---------------------------------------------------------------- spec vocabulary
+
+//@ pred wfVAA(v *VAA) = v != nil && forall i in 0..len(v.Signatures) :: v.Signatures[i] != nil
+// The signing body and digest as spec functions of the eight body fields only. encBody is
+// generated on every run from the offset table of Messages.sol:parseVM.
+//@ pure bodyOf(v *VAA) = encBody(wrap32(unix(v.Timestamp)), v.Nonce, v.EmitterChain, v.TargetChain, v.EmitterAddress, v.Sequence, v.ConsistencyLevel, v.Payload)
+//@ pure digestOf(v *VAA) = keccak(bytes32(keccak(bodyOf(v))))
+// Address the code derives from a recovered public key.
+//@ pure pk2addr(pk []byte) = b2a(sub(bytes32(keccak(sub(pk, 1, 65))), 12, 32))
+//@ pure signerOf(d [32]byte, s [65]byte) = pk2addr(ecrec(d, s))
+
+// ---------------------------------------------------------------- serialization (C04, C05)
+
+//@ func MustWrite(w io.Writer, order binary.ByteOrder, data interface{})
+//@   props C04 C05
+//@   requires [buffer] isBuffer(w)
+//@   requires [fixed-size] boxsize(data) == 1 || boxsize(data) == 2 || boxsize(data) == 4 || boxsize(data) == 8
+//@   ensures  [appended] bufOf(w) == appendbe(old(bufOf(w)), boxsize(data), boxint(data))
+//@   ensures  [others-untouched] unchangedExcept("lib:bytes.Buffer.b", w)
+//@   modifies lib:bytes.Buffer.b
+//@   nopanic
+
+//@ func (v *VAA) serializeBody() (out []byte)
+//@   props C04 C05
+//@   requires v != nil
+//@   ensures  [layout] out == bodyOf(v)
+//@   modifies fresh lib:bytes.Buffer.b
+//@   nopanic
+
+//@ func (v *VAA) SigningMsg() (h common.Hash)
+//@   props C04 C06
+//@   requires v != nil
+//@   ensures  [double-keccak] h == digestOf(v)
+//@   modifies fresh lib:bytes.Buffer.b
+//@   nopanic
+
+// ---------------------------------------------------------------- signature verification (C06)
+
+// sigOK: signature i is in range, strictly after its predecessor, recovers over the
+// VAA's own digest to the address at the index it claims, and its signer is new.
+//@ pred sigOK(v *VAA, a []common.Address, i int) = int(v.Signatures[i].Index) < len(a)
+//@   | && (i > 0 ==> int(v.Signatures[i].Index) > int(v.Signatures[i-1].Index))
+//@   | && ecrec_ok(digestOf(v), v.Signatures[i].Signature)
+//@   | && signerOf(digestOf(v), v.Signatures[i].Signature) == a[int(v.Signatures[i].Index)]
+//@   | && (forall j in 0..i :: signerOf(digestOf(v), v.Signatures[j].Signature) != signerOf(digestOf(v), v.Signatures[i].Signature))
+//@ pred specVerify(v *VAA, a []common.Address) = forall i in 0..len(v.Signatures) :: sigOK(v, a, i)
+
+//@ lemma sig_index_lower(v *VAA, a []common.Address, m int)
+//@   props C06
+//@   induction m
+//@   requires specVerify(v, a) && 0 <= m && m < len(v.Signatures)
+//@   ensures  [at-least-position] int(v.Signatures[m].Index) >= m
+
+//@ lemma pigeonhole(v *VAA, a []common.Address)
+//@   props C06
+//@   requires specVerify(v, a)
+//@   uses sig_index_lower(v, a, len(v.Signatures) - 1)
+//@   ensures  [no-more-signatures-than-keys] len(v.Signatures) <= len(a)
+
+// On lists without repeated addresses the distinct-signer conjunct follows from the others.
+//@ lemma dup_redundant(v *VAA, a []common.Address, i int, j int)
+//@   props C06
+//@   requires 0 <= j && j < i && i < len(v.Signatures)
+//@   requires forall p in 0..len(a) :: forall q in 0..len(a) :: p != q ==> a[p] != a[q]
+//@   requires int(v.Signatures[i].Index) < len(a) && int(v.Signatures[j].Index) < len(a) && int(v.Signatures[j].Index) < int(v.Signatures[i].Index) && 0 <= int(v.Signatures[j].Index)
+//@   requires signerOf(digestOf(v), v.Signatures[i].Signature) == a[int(v.Signatures[i].Index)]
+//@   requires signerOf(digestOf(v), v.Signatures[j].Signature) == a[int(v.Signatures[j].Index)]
+//@   ensures  [distinct] signerOf(digestOf(v), v.Signatures[j].Signature) != signerOf(digestOf(v), v.Signatures[i].Signature)
+
+//@ func (v *VAA) VerifySignatures(addresses []common.Address) (ok bool)
+//@   props C06
+//@   requires wfVAA(v)
+//@   ensures  [iff] ok <==> specVerify(v, addresses)
+//@   modifies fresh lib:bytes.Buffer.b
+//@   nopanic
+//@   at [len(addresses) < len(v.Signatures)]: use pigeonhole(v, addresses)
+//@   loop [range v.Signatures]:
+//@     invariant [prefix] forall k in 0..$i :: sigOK(v, addresses, k)
+//@     invariant [last]   last_index == ($i == 0 ? 0 - 1 : int(v.Signatures[$i-1].Index))
+//@     invariant [seen]   len(signing_addresses) == $i && (forall k in 0..$i :: signing_addresses[k] == signerOf(digestOf(v), v.Signatures[k].Signature))
+//@     invariant [digest] h == digestOf(v)
+//@   loop [range signing_addresses]:
+//@     invariant [nodup]  forall k in 0..$i :: signing_addresses[k] != addr
+
+// ---------------------------------------------------------------- wire format (C05)
+
+// encodes(b, v): b is the wire encoding of v - header, n signatures of 66 bytes, body.
+//@ pred encodes(b []byte, v *VAA) = len(b) == 6 + 66*len(v.Signatures) + 53 + len(v.Payload)
+//@   | && b[0] == v.Version && be32at(b, 1) == v.GuardianSetIndex && b[5] == len(v.Signatures)
+//@   | && (forall i in 0..len(v.Signatures) :: b[6+66*i] == v.Signatures[i].Index && (forall j in 0..65 :: b[7+66*i+j] == v.Signatures[i].Signature[j]))
+//@   | && (forall k in 0..53+len(v.Payload) :: b[6+66*len(v.Signatures)+k] == bodyOf(v)[k])
+
+//@ func (v *VAA) Marshal() (out []byte, err error)
+//@   props C05
+//@   requires wfVAA(v) && len(v.Signatures) <= 255
+//@   ensures  [no-error] err == nil
+//@   ensures  [layout] encodes(out, v)
+//@   modifies fresh lib:bytes.Buffer.b
+//@   nopanic
+//@   loop [range v.Signatures]:
+//@     invariant [len]  len(bufOf(buf)) == 6 + 66*$i
+//@     invariant [hdr]  bufOf(buf)[0] == v.Version && be32at(bufOf(buf), 1) == v.GuardianSetIndex && bufOf(buf)[5] == len(v.Signatures)
+//@     invariant [sigs] forall i in 0..$i :: bufOf(buf)[6+66*i] == v.Signatures[i].Index && (forall j in 0..65 :: bufOf(buf)[7+66*i+j] == v.Signatures[i].Signature[j])
+//@     invariant [buf]  isBuffer(buf) && allocated(buf) && fresh(buf)
+//@     invariant [frame] unchangedExcept("lib:bytes.Buffer.b", buf)
+
+// accepts(b): the byte strings the decoder takes - supported version, and enough bytes for
+// the header, the announced number of signatures, the fixed body and a non-empty payload.
+//@ pred accepts(b []byte) = len(b) >= 60 + 66*b[5] && b[0] == 1
+
+//@ func Unmarshal(data []byte) (ret *VAA, err error)
+//@   props C05
+//@   ensures  [reject-complete] err != nil ==> ret == nil
+//@   ensures  [accept-only-if] err == nil ==> accepts(data)
+//@   ensures  [accept-if] accepts(data) ==> err == nil
+//@   ensures  [accept-wf] err == nil ==> wfVAA(ret) && fresh(ret)
+//@   ensures  [exact-len] err == nil ==> len(data) == 6 + 66*len(ret.Signatures) + 53 + len(ret.Payload)
+//@   ensures  [exact-hdr] err == nil ==> data[0] == ret.Version && be32at(data, 1) == ret.GuardianSetIndex && data[5] == len(ret.Signatures)
+//@   ensures  [exact-sigs] err == nil ==> (forall i in 0..len(ret.Signatures) :: data[6+66*i] == ret.Signatures[i].Index && (forall j in 0..65 :: data[7+66*i+j] == ret.Signatures[i].Signature[j]))
+//@   ensures  [exact-body] err == nil ==> (forall k in 0..53+len(ret.Payload) :: data[6+66*len(ret.Signatures)+k] == bodyOf(ret)[k])
+//@   ensures  [accept-exact] err == nil ==> encodes(data, ret)
+//@   ensures  [whole-seconds] err == nil ==> nsec(ret.Timestamp) == 0 && 0 <= unix(ret.Timestamp) && unix(ret.Timestamp) < 4294967296
+//@   modifies fresh VAA.*, fresh Signature.*, fresh lib:bytes.Reader.s, fresh lib:bytes.Reader.i
+//@   nopanic
+//@   replay vaa_Unmarshal.go.tmpl
+//@   loop [i < int(lenSignatures)]:
+//@     invariant [range] 0 <= i && i <= int(lenSignatures)
+//@     invariant [pos]   readerPos(reader) == 5 + 66*i
+//@     invariant [len]   len(v.Signatures) == int(lenSignatures)
+//@     invariant [sigs]  forall k in 0..i :: v.Signatures[k] != nil && allocated(v.Signatures[k]) && fresh(v.Signatures[k]) && v.Signatures[k].Index == data[6+66*k] && (forall j in 0..65 :: v.Signatures[k].Signature[j] == data[7+66*k+j])
